@@ -235,6 +235,27 @@ pub fn run(ctx: &Ctx) -> Result<Evidence, String> {
             }
         }
     }
+    // ascending lists of 16..40 strings with a stray element in the last / first / middle slot
+    // (a name appended to a sorted allow-list, a number among strings), A holding that element
+    for &lb in &[16usize, 17, 20, 40] {
+        for (slot, stray) in [(lb - 1, J::str("admin")), (lb - 1, J::int(7)), (0, J::str("zzz")), (lb / 2, J::str("aaa")), (lb - 1, J::str("role-05"))] {
+            let mut b: Vec<J> = (0..lb - 1).map(|i| J::str(&format!("role-{:02}", i))).collect();
+            b.insert(slot.min(b.len()), stray.clone());
+            sorted_b.push(b);
+            large_a.push(vec![stray.clone(), J::str("q1"), J::str("q2"), J::str("q3")]);
+            large_a.push(vec![J::str("role-03"), stray.clone(), J::str("role-01"), J::str("role-00")]);
+        }
+    }
+    // lists whose sizes multiply to 4096 and more
+    for &n in &[64usize, 80, 100] {
+        let a: Vec<J> = (0..n).map(|i| J::str(&format!("a{:03}", i))).collect();
+        let mut a_hit = a.clone();
+        a_hit[n / 2] = J::str("b007");
+        large_a.push(a);
+        large_a.push(a_hit);
+        sorted_b.push((0..n).map(|i| J::str(&format!("b{:03}", i))).collect());
+        sorted_b.push((0..n).map(|i| if i % 3 == 0 { J::int(i as i64) } else { J::str(&format!("b{:03}", i)) }).collect());
+    }
     // elements nested deeper than any parser limit, equal on both sides
     for &depth in &[127usize, 128, 129, 200, 300] {
         let nest = |leaf: J, arr: bool| {
@@ -414,6 +435,46 @@ pub fn run(ctx: &Ctx) -> Result<Evidence, String> {
     }
     if acc.counters.get("HARNESS_unparsable").copied().unwrap_or(0) > 0 {
         return Err("a C14 template does not parse in oracle (b)".into());
+    }
+    // the same set questions asked by all threads at the same time, alternating between two
+    // documents with opposite answers (whatever is remembered between calls is then read and
+    // written by all of them at once)
+    let mut acc = acc;
+    {
+        let threads = ctx.threads.clamp(2, 16);
+        let rounds = ctx.tier.pick(600, 20_000);
+        let mk = |hit: bool| -> serde_json::Value {
+            let a: Vec<String> = (0..80).map(|i| if hit && i == 41 { "b017".to_string() } else { format!("a{:03}", i) }).collect();
+            let b: Vec<String> = (0..80).map(|i| format!("b{:03}", i)).collect();
+            json!({"A": a, "B": b, "L": [a]})
+        };
+        let docs = [mk(true), mk(false)];
+        let qs = ["$.L[?any_of(@, $.B)]", "$.L[?none_of(@, $.B)]", "$.L[?subset_of(@, $.B)]", "$[?any_of($.A, $.B)]"];
+        let expected: Vec<Vec<usize>> = docs.iter().map(|d| qs.iter().map(|q| match libapi::query_with_path(q, d) { LibOutcome::Ok(ns) => ns.len(), _ => usize::MAX }).collect()).collect();
+        let barrier = std::sync::Barrier::new(threads);
+        let done = std::sync::atomic::AtomicU64::new(0);
+        std::thread::scope(|s| {
+            for t in 0..threads {
+                let (docs, qs, expected, barrier, done) = (&docs, &qs, &expected, &barrier, &done);
+                s.spawn(move || {
+                    barrier.wait();
+                    for round in 0..rounds {
+                        let di = (round / 3 + t) % 2;
+                        let qi = round % qs.len();
+                        let got = match libapi::query_with_path(qs[qi], &docs[di]) { LibOutcome::Ok(ns) => ns.len(), _ => usize::MAX };
+                        if got != expected[di][qi] {
+                            ctx.violate(
+                                &format!("with {} threads asking the same set questions at the same time, {} on the document {} a common element selects {} nodes instead of {}", threads, qs[qi], if di == 0 { "with" } else { "without" }, got, expected[di][qi]),
+                                json!({"kind":"schedule","query": qs[qi], "threads": threads, "document": docs[di]}),
+                            );
+                            return;
+                        }
+                        done.fetch_add(1, std::sync::atomic::Ordering::Relaxed);
+                    }
+                });
+            }
+        });
+        acc.count("concurrent_same_question_evaluations", done.load(std::sync::atomic::Ordering::Relaxed));
     }
     let mut ev = Evidence::new("cases = (template, second argument): for each of the 156 arrays of length <= 3 over the sub-universe {1,\"a\",null,[1],{\"k\":1}} (plus random nested arrays and non-arrays) as $.B, templates sweep the first argument over all 156 arrays (as @, @.x) and over a 14-element value universe (for in/nin), for all five functions, both polarities, swapped positions, literals, missing nodes and non-array arguments, inside && and ||. So all 156^2 ordered array pairs x 5 functions are evaluated. Further families: arrays over {0,1,63,64,65}; arrays over {i64::MAX, 2^63, 2^64-2, 2^64-1} (neighbours sharing one f64); arrays of 4..100 elements whose only common element is a -0.0 / 0.0 pair at the top level or nested; in-place mutation histories. Non-trivial = distinct (template, B) whose expected result keeps some but not all candidates.");
     ev.set("exhaustive", json!(true));
